@@ -10,3 +10,16 @@ claim("C12",
  "BeginBlock maturity hook addMaturedAmountsToBalance executed symbolically on the real stores from an arbitrary committed pending-undelegation table (2 delegators, heights now-1..now+4, arbitrary amounts): exactly the entries of the current height are paid to their own delegator, zeroed, and no other entry changes.",
  "Thin check: one hook, one inductive step under the reachable-state invariant key height <= now + RewardsMaturityTime(4); the delegate/undelegate/withdraw/reinvest handlers and the pool-balance invariant are not yet encoded and are outside this claim.",
  "DESIGN.md §6 C12")
+
+claim("C02",
+ "One inductive step per transaction kind through the real txDeliverer on the real stores: from an arbitrary funded state (all balances, pools, fee pool, stake, delegation and reward records symbolic and non-negative) a transaction of the kind with arbitrary amount (any integer, any currency name), fee and role assignment, admitted by the real Validate, is delivered; for every currency the ledger total does not increase and no stored amount is negative. Kinds encoded so far: SEND, SENDPOOL, STAKE, UNSTAKE, WITHDRAW (stake), the four network-delegation kinds.",
+ "Kinds not yet encoded (governance, ONS, ETH, OLVM, rewards withdraw, evidence, bid) and the block-level hooks are outside this claim; mempool-admitted regime only (unvalidated DeliverTx is C04's obligation D); store gas is an arbitrary number (serialised sizes are not modelled); 2-3 parties; one step, composition over histories is argued, not mechanised. Trusted: json/iavl/crypto stubs, validated by native replay of path witnesses on every run.",
+ "DESIGN.md §6 C02")
+claim("C03",
+ "Same exploration as C02 with the goal that the holdings (every ledger cell in every currency, incl. stake and delegation records) of every party that did not sign the delivered transaction do not decrease. Kinds: SEND, SENDPOOL, STAKE, UNSTAKE, WITHDRAW (stake), network delegation kinds.",
+ "Same bounds and trusted base as C02; signatures are the functional stub (unforgeable); slashing by a guilty verdict and the remaining kinds are outside.",
+ "DESIGN.md §6 C03")
+claim("C11",
+ "Delegation store lifecycle, one operation (Stake, Unstake, Withdraw, UpdateWithdrawReward) with arbitrary non-negative amount from an arbitrary state satisfying the representation invariant over 2 validators x 2 delegators: the invariant (validator stake = sum of its delegators' locked amounts; everything >= 0) is preserved, unstake moves exactly the amount into the maturing record of the given height, only the block-end step of that height makes it withdrawable (exactly once, record cleared), withdraw never exceeds the withdrawable amount, and a delegator's locked+maturing+withdrawable potential changes only by stake/withdraw. Handler level (maturity height = now + MaturityTime, charge = amount) is covered by the C02 staking harnesses.",
+ "Store level; refused operations may leave partial writes that the caller's transaction session discards (C06). The frozen-validator guard and penalties are not yet encoded here. Histories are covered by induction on the invariant (argued).",
+ "DESIGN.md §6 C11")
